@@ -4,7 +4,7 @@ Space: every DFS-ordered tree with <=3 bodies x every joint-kind assignment from
 hinge+slide} x joint damping {off, on} x actuator set {none, filter, filterexact (+actearly), integrator with
 actrange, muscle} -> one model each; every model is stepped under 5 integrator configurations (Euler, Euler with
 EULERDAMP disabled (damped models only), RK4, implicitfast, implicit) from 2 grid states (unnormalised quaternions, non-zero qvel,
-ctrl, act; one world each; in world 0 the limited activation starts next to its range so the clamp fires)
+ctrl, act; state 2 under applied generalized forces; one world each; in world 0 the limited activation starts next to its range so the clamp fires)
 for k lock-step steps, and compared with mj_step after every step.
 Oracle: mj_step: qpos, qvel, act, time, qacc_warmstart; class f32dyn, growing linearly with the step number.
 """
@@ -79,16 +79,16 @@ def _actuators(scn):
   if scn["act"] == "none":
     return ""
   if scn["act"] == "filter":
-    a = f'<general {j} dyntype="filter" dynprm="{tau}" gainprm="1.5" biastype="affine" biasprm="0.1 -0.5 -0.2"/>'
+    a = f'<general {j} dyntype="filter" dynprm="{tau}" gainprm="1.5" biastype="affine" biasprm="0.1 -0.5 -1.5"/>'
   elif scn["act"] == "filterexact":
     a = (
-      f'<general {j} dyntype="filterexact" dynprm="{tau * 0.6:g}" gainprm="-0.8" biastype="affine" biasprm="0 0 -0.3"/>'
+      f'<general {j} dyntype="filterexact" dynprm="{tau * 0.6:g}" gainprm="-0.8" biastype="affine" biasprm="0 0 -1.2"/>'
       f'<general {j} dyntype="filterexact" dynprm="{tau:g}" gainprm="0.5" actearly="true"/>'
     )
   elif scn["act"] == "intlim":
     a = (
       f'<general {j} dyntype="integrator" actlimited="true" actrange="-0.5 0.5" gainprm="1.2" biastype="affine" '
-      f'biasprm="0 -1.2 -0.3"/>'
+      f'biasprm="0 -1.2 -1.5"/>'
     )
   else:
     a = (
@@ -122,7 +122,9 @@ def _inputs(mjm, scn, which):
       ctrl = [abs(c) + 0.5 for c in ctrl]
   else:
     act = [(0.3, 0.7, 0.15, 0.5)[(v + which + a) % 4] for a in range(mjm.na)]
-  return qpos, qvel, ctrl, act
+  # state 2 is under load: generalized forces that change qvel by O(1) in one step (velocity-implicit terms only show then)
+  frc = [0.0] * mjm.nv if which == 1 else [(4.5, -6.0, 3.0)[(i + v) % 3] for i in range(mjm.nv)]
+  return qpos, qvel, ctrl, act, frc
 
 
 def execute(scn):
@@ -141,6 +143,7 @@ def execute(scn):
   base = int(mjm.opt.disableflags)
   m = mjw.put_model(mjm)
   inputs = [_inputs(mjm, scn, which) for which in (1, 2)]
+  rot3 = f":rot3={int(any(k in ('ball', 'free') for k in scn['joints']))}"  # 3-dof rotations present (gyroscopic torques)
   final = {}  # config -> reference end state (to show that the configurations differ)
   ndeg = 0
   moved = False
@@ -154,8 +157,8 @@ def execute(scn):
     m.opt.disableflags = flags
     # reference trajectories
     refs, good = [], []
-    for qpos, qvel, ctrl, act in inputs:
-      mjd = util.mj_data(mjm, qpos=qpos, qvel=qvel, ctrl=ctrl if mjm.nu else None, act=act if mjm.na else None)
+    for qpos, qvel, ctrl, act, frc in inputs:
+      mjd = util.mj_data(mjm, qpos=qpos, qvel=qvel, ctrl=ctrl if mjm.nu else None, act=act if mjm.na else None, qfrc_applied=frc)
       traj, ok = [], True
       for _ in range(K):
         mujoco.mj_step(mjm, mjd)
@@ -175,8 +178,8 @@ def execute(scn):
         cor[w] = f":coriolis={int(bool(on))}"
     # MJWarp, both states as two worlds
     d = mjw.make_data(mjm, nworld=2)  # (reset_data re-builds a kernel on every call: ~20 ms)
-    for w, (qpos, qvel, ctrl, act) in enumerate(inputs):
-      mjd0 = util.mj_data(mjm, qpos=qpos, qvel=qvel, ctrl=ctrl if mjm.nu else None, act=act if mjm.na else None)
+    for w, (qpos, qvel, ctrl, act, frc) in enumerate(inputs):
+      mjd0 = util.mj_data(mjm, qpos=qpos, qvel=qvel, ctrl=ctrl if mjm.nu else None, act=act if mjm.na else None, qfrc_applied=frc)
       util.copy_state(mjd0, d, world=w)
     for step in range(1, K + 1):
       mjw.step(m, d)
@@ -187,7 +190,7 @@ def execute(scn):
         r = refs[w][step - 1]
         tol = util.TOL[tolclass] * step
         pre = f"{name}:state{w + 1}:step{step}:"
-        cls = f"{name}{cor[w]}:act={scn['act']}:damp={scn['damp']}"
+        cls = f"{name}{cor[w]}{rot3 if name.startswith('implicit') else ''}:act={scn['act']}:damp={scn['damp']}"
         for f in ("qpos", "qvel", "qacc_warmstart"):
           c.close(pre + f, got[f][w], r[f], tol, vkey=f"{f}:{cls}")
         if mjm.na:
@@ -196,7 +199,7 @@ def execute(scn):
     for w in (0, 1):
       if good[w]:
         final[(name, w)] = refs[w][-1]
-        q0, v0 = inputs[w][0], inputs[w][1]
+        v0 = inputs[w][1]
         if np.abs(refs[w][-1]["qvel"] - np.array(v0)).max() > 1e-6:
           moved = True
   mjm.opt.disableflags = base
